@@ -13,7 +13,7 @@ MUT = [
      "            .fetch_add(acknowledged, Ordering::Relaxed);", ["C12", "C04"], ["C12.R2", "C04.R4"]),
     ("M04", "penguin-mux/src/task.rs", "if !finish_sent && !inhibit_rst {", "if !finish_sent || !inhibit_rst {", ["C06", "C10"], ["C06.R3", "C10.R1"]),
     ("M05", "penguin/src/server/service.rs", "if self.ws_psk.is_some() && x_penguin_psk != self.ws_psk {", "if x_penguin_psk.is_some() && x_penguin_psk != self.ws_psk {", ["C14"], ["C14.R1"]),
-    ("M06", "penguin/src/tls/rustls.rs", "        (true, None) => config\n            .dangerous()", "        (false, None) => config\n            .dangerous()", ["C17"], ["C17.R1"]),
+    ("M06", "penguin/src/tls/rustls.rs", "        (false, None) => config.with_root_certificates(roots).with_no_client_auth(),", "        (false, None) => config\n            .dangerous()\n            .with_custom_certificate_verifier(Arc::new(EmptyVerifier(get_crypto_provider())))\n            .with_no_client_auth(),", ["C17"], ["C17.R1"]),
     ("M07", "penguin-mux/src/frame.rs", "                let rwnd = data.get_u32();\n                let target_port = data.get_u16();", "                let target_port = data.get_u16();\n                let rwnd = data.get_u32();", ["C09"], ["C09.R1"]),
     ("M08", "penguin/src/client/mod.rs", "        _ = channel_timeout.sleep() => {\n            failed_stream_request.replace(stream_command);", "        _ = channel_timeout.sleep() => {", ["C19"], ["C19.R2"]),
     ("M09", "penguin-mux/src/task.rs", "                        warn!(\"Peer does not respect `rwnd` limit, dropping stream\");\n                        self.close_flow(flow_id, false);", "                        warn!(\"Peer does not respect `rwnd` limit, dropping stream\");\n                        self.close_flow(flow_id, true);", ["C10", "C03"], ["C10.R1"]),
@@ -34,6 +34,22 @@ MUT = [
     ("M27", "cow-bytes/src/lib.rs", "                *self = Self::Temporary(right);\n                Self::Temporary(left)", "                *self = Self::Temporary(left);\n                Self::Temporary(right)", ["C20"], ["C20.R3"]),
     ("M28", "penguin-mux/src/task.rs", "                    Some(FlowSlot::BindRequested(_)) => {\n                        warn!(\"Peer replied `Acknowledge` to a `Bind` request\");\n                        (false, true)", "                    Some(FlowSlot::BindRequested(_)) => {\n                        warn!(\"Peer replied `Acknowledge` to a `Bind` request\");\n                        (false, false)", ["C10", "C15"], ["C10.R1"]),
 ]
+
+
+# behaviour-preserving refactors: every listed check must stay silent
+EQUIV = [
+    ("E01", "penguin-mux/src/stream.rs", "if new >= self.rwnd_threshold {", "if !(new < self.rwnd_threshold) {", ["C03"]),
+    ("E02", "penguin-mux/src/lib.rs", "        if datagram.target_host.len() > 255 {", "        let host_len = datagram.target_host.len();\n        if host_len >= 256 {", ["C11"]),
+    ("E03", "penguin-mux/src/task.rs", "if !finish_sent && !inhibit_rst {", "if !(finish_sent || inhibit_rst) {", ["C06", "C10"]),
+    ("E04", "cow-bytes/src/pbuf.rs", "        if cow.is_empty() {\n            // `Buf::chunk` must not be empty while bytes remain\n            return;\n        }\n        self.total_remaining_len += cow.len();\n        self.data.push(cow);", "        if cow.len() == 0 {\n            return;\n        }\n        self.total_remaining_len += cow.len();\n        self.data.push(cow);", ["C20"]),
+    ("E05", "penguin-socks/src/v4.rs", "let rhost = if ip != 0 && ip >> 8 == 0 {", "let rhost = if ip & 0xffff_ff00 == 0 && ip != 0 {", ["C18"]),
+    ("E06", "penguin-mux/src/frame.rs", "        check_remaining!(data, size_of::<u8>() + size_of::<u32>());", "        check_remaining!(data, 5);", ["C09"]),
+    ("E07", "penguin/src/server/service.rs", "        if req.method() != Method::GET {\n            warn!(\"Invalid WebSocket request: not a GET request\");\n            return self.backend_or_404_handler(req).await;\n        }\n", "", ["C14"]),  # placeholder replaced below
+    ("E08", "penguin-mux/src/stream.rs", "                if self.psh_send_remaining.load(Ordering::Acquire) != 0 {\n                    continue;\n                }", "                if self.psh_send_remaining.load(Ordering::Acquire) > 0 {\n                    continue;\n                }", ["C12", "C03", "C04"]),
+    ("E09", "penguin-mux/src/task.rs", "            rwnd_threshold: self.default_rwnd_threshold.min(self.rwnd),", "            rwnd_threshold: core::cmp::min(self.rwnd, self.default_rwnd_threshold),", ["C04"]),
+    ("E10", "penguin/src/client/mod.rs", "                return Err(Error::ServerDisconnected);\n            }\n            Some(sender) = stream_command_rx.recv()", "                break Err(Error::ServerDisconnected);\n            }\n            Some(sender) = stream_command_rx.recv()", ["C19"]),
+]
+EQUIV = [e for e in EQUIV if e[0] not in ("E07", "E10")]
 
 
 def run(cmd, **kw):
@@ -69,10 +85,31 @@ def main():
         ok = all(any(x.startswith(e) for x in fired) for e in expect)
         results.append((mid, "CAUGHT" if ok else "MISSED", fired, expect))
         print(mid, "CAUGHT" if ok else "MISSED", "expect", expect, "fired", sorted(set(fired))[:8], flush=True)
+    for (eid, f, old, new, checks) in EQUIV:
+        if want and eid not in want:
+            continue
+        run(["git", "-C", WT, "checkout", "--", "."])
+        p = os.path.join(WT, f)
+        s = open(p).read()
+        if old not in s:
+            print(eid, "anchor text not found in", f)
+            results.append((eid, "ANCHOR-MISSING", [], []))
+            continue
+        open(p, "w").write(s.replace(old, new, 1))
+        fired = []
+        for c in checks:
+            env = dict(os.environ, PGCHECK_REPO=WT, PGCHECK_EVID=EVID)
+            r = run(["/verif/check", c], env=env, cwd="/verif")
+            for line in r.stdout.splitlines():
+                if line.startswith(c + ".") and "/" in line:
+                    fired.append(line.split()[0])
+        results.append((eid, "SILENT" if not fired else "FALSE-ALARM", fired, []))
+        print(eid, "SILENT" if not fired else "FALSE-ALARM", sorted(set(fired))[:6], flush=True)
     run(["git", "-C", WT, "checkout", "--", "."])
     json.dump(results, open("/verif/selftest/last_mutation_run.json", "w"), indent=1)
     n = sum(1 for r in results if r[1] == "CAUGHT")
-    print("%d/%d caught" % (n, len(results)))
+    print("%d/%d mutations caught; %d/%d refactors silent" % (n, sum(1 for r in results if r[0].startswith("M")),
+                                                             sum(1 for r in results if r[1] == "SILENT"), sum(1 for r in results if r[0].startswith("E"))))
 
 
 if __name__ == "__main__":
